@@ -73,8 +73,27 @@ CHECKS["C02"] = {
     "outside": "whole-cluster agreement is not encoded as one product; it follows from the local obligations by the composition argument in DESIGN.md section 3 (model-level). Histories through the real Run loop are covered by the Run-level harness where registered. Rounds >= 200, longer justification lists.",
     "assumptions": _qbft_assumptions,
 }
+def _run(ev, jl, k, p, **kw):
+    g = {"pkg": _QB, "harness": "VerifRun", "params": {"n": 4, "k": k, "p": p, "ev": ev, "jl": jl}, "prune": 1000, "timeout_ms": 600000, "case_timeout_s": 7000}
+    g.update(kw)
+    return g
+
+# event kinds (base-7 digits, first event = lowest digit): 0 input arrives, 1 PRE-PREPARE, 2 PREPARE, 3 COMMIT, 4 ROUND-CHANGE, 5 DECIDED, 6 timer
+_RUN_Q_C02 = [_run(8, 0, 2, 2), _run(113, 0, 3, 2), _run(34, 0, 2, 2), _run(7, 0, 2, 1)]          # PP,PP | PP,P,P | T,RC | I,PP
+_RUN_Q_C03 = [_run(40, 27, 2, 1), _run(171, 0, 3, 2)]                                                # D,D (3 justifications each) | C,C,C
+_RUN_T = [_run(799, 0, 4, 2), _run(1886, 3 * 512, 4, 2), _run(5 + 3 * 7 + 3 * 49 + 3 * 343, 3, 4, 2), _run(6 + 4 * 7 + 4 * 49 + 4 * 343, 0, 4, 2),
+          _run(1 + 6 * 7 + 1 * 49, 6 * 64, 3, 2), _run(2 + 2 * 7 + 2 * 49 + 1 * 343, 0, 4, 2), _run(0 + 6 * 7 + 4 * 49, 0, 3, 1)]
+CHECKS["C02"]["quick"] = CHECKS["C02"]["quick"] + _RUN_Q_C02
+CHECKS["C02"]["thorough"] = CHECKS["C02"]["thorough"] + _RUN_Q_C02 + _RUN_Q_C03 + _RUN_T
+CHECKS["C02"]["bounds"] = dict(CHECKS["C02"]["bounds"])
+CHECKS["C02"]["bounds"]["quick"] += "; Run-level: the real Run loop of one honest process (n=4) fed the event sequences PRE-PREPARE,PRE-PREPARE | PRE-PREPARE,PREPARE,PREPARE | timer,ROUND-CHANGE | input,PRE-PREPARE with every message field symbolic (sources other than the process itself), obligations L1-L5, L7, L10, L11 asserted on the broadcast/decision log"
+CHECKS["C02"]["bounds"]["thorough"] += "; Run-level sequences of 4 events (PP,P,P,P | C,C,C,D | D,C,C,C | T,RC,RC,RC | PP,T,PP(6 justifications) | P,P,P,PP | I,T,RC)"
 CHECKS["C03"] = dict(CHECKS["C02"])
+CHECKS["C03"]["quick"] = [g for g in CHECKS["C02"]["quick"] if g["harness"] != "VerifRun"] + _RUN_Q_C03
+CHECKS["C03"]["bounds"] = dict(CHECKS["C02"]["bounds"])
+CHECKS["C03"]["bounds"]["quick"] = CHECKS["C03"]["bounds"]["quick"].split("; Run-level")[0] + "; Run-level: the real Run loop (n=4) fed DECIDED,DECIDED (3 symbolic justifications each) and COMMIT,COMMIT,COMMIT with symbolic contents: at most one decision, backed by a quorum of distinct COMMIT(round,value), quorum certificate handed to Decide contains it"
 CHECKS["C04"] = dict(CHECKS["C02"])
+CHECKS["C04"]["quick"] = [g for g in CHECKS["C02"]["quick"] if g["harness"] != "VerifRun"] + [_run(34, 0, 2, 2)]
 
 
 # ---------------------------------------------------------------------------------------------------------------
